@@ -8,8 +8,11 @@ Cases == {[kind |-> "note", n |-> n, o |-> o] : n \in Names(2), o \in Octs} \cup
          {[kind |-> "helmholtz", n |-> n, o |-> o] : n \in N35, o \in Octs} \cup
          {[kind |-> "velocity", v |-> v] : v \in -3..131} \cup {[kind |-> "channel", c |-> c] : c \in -3..19} \cup
          {[kind |-> "badname", s |-> s] : s \in {<<"H">>, <<"c">>, <<"C","x">>, <<"C","-","4","-","5">>, <<"1">>, <<"#","C">>, <<"C","#","-","4","-">>, <<"h","-","4">>}} \cup
+         \* a well-formed name with one foreign character put in at any position (front, middle, end) is malformed
+         UNION {{[kind |-> "badname", s |-> SubSeq(n, 1, i) \o <<c>> \o SubSeq(n, i + 1, Len(n))] :
+                   i \in 0..Len(n), c \in {"\n", " ", "\t", "x", "H", "1", "c", "."}} : n \in {<<"C">>, <<"B","b">>, <<"F","#","#">>}} \cup
          {[kind |-> "tr", n |-> n, o |-> o, sh |-> sh] : n \in N35, o \in Octs, sh \in Shorthands} \cup
-         {[kind |-> "octave", o |-> o, diff |-> d] : o \in 0..4, d \in -6..3}
+         {[kind |-> "octave", n |-> n, o |-> o, diff |-> d] : n \in N35, o \in 0..4, d \in -6..3}
 VARIABLE done
 Init == done = ndJsonSerialize(IOEnv.OUT, SetToSeq(Cases))
 Next == FALSE /\ done' = done
